@@ -65,6 +65,7 @@ type Result struct {
 	SolverQueries int
 	SolverTime    time.Duration
 	MaxQuery      time.Duration
+	Fallbacks     int // solver unknowns resolved by another solver (fresh process, same assertions)
 	Funcs         map[string]int64
 	Samples       []map[string]string
 	Observes      [][]string
@@ -279,6 +280,7 @@ func Explore(h *Harness, opt Options) *Result {
 			mu.Lock()
 			res.SolverQueries += s.Queries
 			res.SolverTime += s.Time
+			res.Fallbacks += s.Fallbacks
 			if s.MaxQuery > res.MaxQuery {
 				res.MaxQuery = s.MaxQuery
 			}
@@ -306,7 +308,7 @@ func Explore(h *Harness, opt Options) *Result {
 				s.Close()
 				s2, err := NewSolver(opt.SolverBin, opt.SolverTimeMs)
 				if err == nil {
-					s2.Queries, s2.Time, s2.MaxQuery = s.Queries, s.Time, s.MaxQuery
+					s2.Queries, s2.Time, s2.MaxQuery, s2.Fallbacks = s.Queries, s.Time, s.MaxQuery, s.Fallbacks
 					*s = *s2
 				}
 			}
